@@ -273,6 +273,14 @@ Proof.
 Qed.
 Print Assumptions C18_nolint_split_spec.
 
+(* ... and it inverts joining: names written one blank apart are exactly the rule elements; a further blank
+   anywhere adds an empty element (Split is compositional over every blank) *)
+Theorem C18_nolint_split_words :
+  (forall ws, ws <> [] -> (forall w, In w ws -> ~ In 32%N w) -> split_sp (join_sp ws) = ws)
+  /\ (forall a b0, split_sp (a ++ 32%N :: b0) = split_sp a ++ split_sp b0).
+Proof. split; [exact split_sp_join_words | exact split_sp_app]. Qed.
+Print Assumptions C18_nolint_split_words.
+
 (* what an empty element (surplus blank: leading, trailing, doubled) means: it silences nothing by itself,
    and a list holding it next to anything else is not the bare form -- only the names in it count *)
 Theorem C18_nolint_empty_element :
